@@ -321,4 +321,27 @@ CATALOGUE = [
          old='                if key == "abstract" and (value is None or value):', new='                if key == "abstract" and (value is None or value is True):'),
     dict(id="c04-stray-char-negative-only", props=["C04"], file=TR + "uvl_reader.py", rule="C04-ERRORS",
          old="        self.errors.append(error_msg)", new="        if 'token recognition' not in msg:\n            self.errors.append(error_msg)"),
+    # ---- C06 ------------------------------------------------------------------------------------
+    dict(id="c06-not-in-right", props=["C06", "C02"], file=TR + "afm_reader.py", rule="C0",
+         old="            result.left = self.build_ast_node(expression.expression(), prefix)",
+         new="            result.right = self.build_ast_node(expression.expression(), prefix)"),
+    dict(id="c06-no-parentheses", props=["C06"], file=TR + "afm_writer.py", rule="C06-GROUPING",
+         old='        return "(" + text + ")" if node.is_op() else text', new='        return text'),
+    dict(id="c06-iff-word", props=["C06"], file=TR + "afm_writer.py", rule="C06-VOC",
+         old="AFM_OPERATORS = {ASTOperation.EQUIVALENCE: 'IFF'}", new="AFM_OPERATORS = {}"),
+    dict(id="c06-requires-as-excludes", props=["C06"], file=TR + "afm_reader.py", rule="C06-VOC",
+         old='            "REQUIRES": ASTOperation.REQUIRES,', new='            "REQUIRES": ASTOperation.EXCLUDES,'),
+    dict(id="c06-card-swapped", props=["C06"], file=TR + "afm_reader.py", rule="C06-KIND",
+         old="            card_min = int(cardinality_node.INT()[0].getText())\n            card_max = int(cardinality_node.INT()[1].getText())",
+         new="            card_min = int(cardinality_node.INT()[1].getText())\n            card_max = int(cardinality_node.INT()[0].getText())"),
+    dict(id="c06-optional-as-mandatory", props=["C06"], file=TR + "afm_reader.py", rule="C06-KIND",
+         old="                relation = Relation(parent_feature, [feature], 0, 1)", new="                relation = Relation(parent_feature, [feature], 1, 1)"),
+    dict(id="c06-null-value-lost", props=["C06"], file=TR + "afm_reader.py", rule="C06-FIELDS",
+         old="        attribute = Attribute(attribute_name, domain, default_value, null_value)", new="        attribute = Attribute(attribute_name, domain, default_value, default_value)"),
+    dict(id="c06-range-terminals", props=["C06", "C02"], file=TR + "afm_reader.py", rule="C0",
+         old="range_list.append(Range(int(domain_range.INT()[0].getText()),\n                                        int(domain_range.INT()[1].getText())))",
+         new="range_list.append(Range(domain_range.INT()[0], domain_range.INT()[1]))"),
+    dict(id="c06-binary-operands-swapped", props=["C06"], file=TR + "afm_reader.py", rule="C06-",
+         old="            result.left = self.build_ast_node(expression.expression()[0], prefix)\n            result.right = self.build_ast_node(expression.expression()[1], prefix)",
+         new="            result.left = self.build_ast_node(expression.expression()[1], prefix)\n            result.right = self.build_ast_node(expression.expression()[0], prefix)"),
 ]
